@@ -152,8 +152,8 @@ def get_all_rules(rules_path=None, match_mode='first_match'):
     if rules_path:
         # Check if it's the new .rules format
         if rules_path.endswith('.rules'):
+            from .merchant_engine import load_merchants_file, MerchantParseError
             try:
-                from .merchant_engine import load_merchants_file
                 from pathlib import Path
                 engine = load_merchants_file(Path(rules_path), match_mode=match_mode)
 
@@ -179,8 +179,10 @@ def get_all_rules(rules_path=None, match_mode='first_match'):
                         list(rule.tags)
                     ))
                 return user_rules_with_source
+            except MerchantParseError:
+                raise  # a malformed .rules file is reported to the caller, not re-read as CSV
             except Exception:
-                pass  # Fall through to CSV handling if .rules parsing fails
+                pass  # Fall through to CSV handling if the file cannot be read as .rules
 
         # CSV format (legacy)
         user_rules = load_merchant_rules(rules_path)
